@@ -73,6 +73,7 @@ struct TcpSock : KFile {
     bool bound = false, port_locked = false, addr_locked = false;
     enum St { FRESH, LISTEN, SYN_SENT, EST, DISCONNECTED } st = FRESH;
     int so_error = 0;            // pending error (reported once)
+    int killed_by = 0;           // errno with which the connection was killed (RST seen, timeout), 0 while alive
     bool dead = false;           // RST seen / timed out: no more traffic
     bool closed = false;         // all descriptors closed (orphan kept for in-flight handling)
     bool ever_connected = false;
